@@ -214,9 +214,14 @@ def ack_flush_family():
         init = [{"op": "insert", "k": 1, "v": val, "auto": False, "tsv": NOW - 10 * E9}, {"op": "flush"}]
         for rn, r in (("get", [{"op": "get", "k": 1}]), ("range", [{"op": "range", "lo": 1, "hi": 2, "lim": 3}])):
             for wn, w in (("delete", [{"op": "delete", "k": 1}, {"op": "flush"}]), ("update", [{"op": "insert", "k": 1, "v": nv}, {"op": "flush"}])):
-                progs.append(("ackflush_%s_%s_%s" % (tag, rn, wn),
-                              {"cfg": cfg, "keys": ["k1", "k2"], "init": init, "points": points,
-                               "threads": [r, w, [{"op": "flush"}, {"op": "flush"}]]}))
+                # directed schedules: the reader stands at its pin; the writer's flush stands where unfinished
+                # retirements are about to be queued again; the third thread's flush runs meanwhile
+                for si, script in enumerate(([[0, "rd_pinned"], [1, "ret_requeue"], [2, "end"]],
+                                             [[0, "rd_pinned"], [2, "ret_requeue"], [1, "ret_requeue"], [2, "end"]],
+                                             [[0, "rd_sector"], [1, "ret_requeue"], [2, "end"], [1, "end"]])):
+                    progs.append(("ackflush_%s_%s_%s_s%d" % (tag, rn, wn, si),
+                                  {"cfg": cfg, "keys": ["k1", "k2"], "init": init, "points": points, "script": script,
+                                   "threads": [r, w, [{"op": "flush"}, {"op": "flush"}]]}))
     return progs
 
 
